@@ -135,6 +135,13 @@ func algCall(c *algCase) (got []float64, ok bool) {
 			got = unDQ(dualquat.ConjQuat(mkDQ(x)))
 		case "Inv":
 			got = unDQ(dualquat.Inv(mkDQ(x)))
+		case "PowReal":
+			got = unDQ(dualquat.PowReal(mkDQ(x), s))
+		case "SqrtSq":
+			r := dualquat.Sqrt(mkDQ(x))
+			got = unDQ(dualquat.Mul(r, r))
+		case "AbsDQ":
+			got = unD(dualquat.Abs(mkDQ(x)))
 		default:
 			ok = false
 		}
@@ -152,6 +159,13 @@ func algCall(c *algCase) (got []float64, ok bool) {
 			got = unDC(dualcmplx.Conj(mkDC(x)))
 		case "Inv":
 			got = unDC(dualcmplx.Inv(mkDC(x)))
+		case "PowReal":
+			got = unDC(dualcmplx.PowReal(mkDC(x), s))
+		case "SqrtSq":
+			r := dualcmplx.Sqrt(mkDC(x))
+			got = unDC(dualcmplx.Mul(r, r))
+		case "AbsDC":
+			got = []float64{dualcmplx.Abs(mkDC(x))}
 		default:
 			ok = false
 		}
@@ -178,8 +192,11 @@ func algHandler(line []byte, sum *core.Summary) error {
 		return fmt.Errorf("unknown operation %s.%s", c.T, c.Op)
 	}
 	op := c.Op
-	if op == "AbsQ" {
+	switch op {
+	case "AbsQ", "AbsDQ", "AbsDC":
 		op = "Abs"
+	case "SqrtSq":
+		op = "Sqrt(x)^2"
 	}
 	name := algPkg[c.T] + "." + op
 	sum.Cases++
@@ -203,7 +220,7 @@ func algHandler(line []byte, sum *core.Summary) error {
 	for i := range c.E {
 		want := c.E[i].Rat()
 		if !within(got[i], want, tol) {
-			sum.Fail("num:"+name+":"+c.Note, fmt.Sprintf("component %d: got %v, exact %s (allowance %s); x=%v y=%v s=%v", i, got[i], want.RatString(), tol.FloatString(20), c.X, c.Y, c.S), c)
+			failOnce(sum, "num:"+name+":"+c.Note, fmt.Sprintf("component %d: got %v, exact %s (allowance %s); x=%v y=%v s=%v", i, got[i], want.RatString(), tol.FloatString(20), c.X, c.Y, c.S), c)
 			return nil
 		}
 		if c.Tolu > 0 {
